@@ -115,7 +115,7 @@ func runCheck(c *Checker, f func(*Checker), dir string) (code int) {
 func dumpSummary(w *World, s *Summary) {
 	fmt.Printf("=== %s: %d outcomes\n", s.Fn, len(s.Outcomes))
 	for i, o := range s.Outcomes {
-		kind := map[OutKind]string{ORet: "return", OPanic: "panic", OBack: "back"}[o.Kind]
+		kind := map[OutKind]string{ORet: "return", OPanic: "panic", OBack: "back", OAbort: "abort"}[o.Kind]
 		fmt.Printf("--- path %d: %s", i, kind)
 		if o.Kind == ORet && o.Ret != nil {
 			if t, ok := o.Ret.(*Term); ok {
